@@ -20,7 +20,6 @@ import (
 	"time"
 
 	"github.com/AdguardTeam/AdGuardDNS/internal/dnsserver/zzverif/vrt"
-	"github.com/AdguardTeam/golibs/syncutil"
 	"github.com/miekg/dns"
 	"github.com/quic-go/quic-go"
 )
@@ -264,6 +263,16 @@ func (p *c06TCP) release() { p.s.workerPool.Release() }
 func (p *c06DoQ) release() { p.s.pool.Release() }
 func (p *c06DoH) release() {}
 
+// c06ServeTCPConn runs the real connection loop of the server (with its
+// recover, its wait for the workers and its close) on a connection that
+// carries what conn delivers and then ends.  The loop is the seam, not the
+// per-message functions below it, whose signatures are an internal matter.
+func c06ServeTCPConn(s *ServerDNS, conn net.Conn) {
+	s.wg.Add(1)
+	s.serveTCPConn(context.Background(), conn)
+	c06Wait(s)
+}
+
 func c06Wait(s *ServerDNS) {
 	s.wg.Wait()
 	// Let the worker goroutine return its buffer to the pool: with a single
@@ -306,23 +315,9 @@ func (p *c06TCP) feed(msg []byte) string {
 	binary.BigEndian.PutUint16(framed, uint16(len(msg)))
 	copy(framed[2:], msg)
 	conn := &c06Conn{r: bytes.NewReader(framed)}
-	wg := &sync.WaitGroup{}
-	// The connection loop of the server recovers from panics and closes the
-	// connection; so does this caller of its per-message step.
-	panicked := ""
-	err := func() (err error) {
-		defer func() {
-			if v := recover(); v != nil {
-				panicked = fmt.Sprintf(" panic=%v", v)
-			}
-		}()
+	c06ServeTCPConn(p.s, conn)
 
-		return p.s.acceptTCPMsg(conn, wg, &sync.Mutex{}, time.Second, syncutil.EmptySemaphore{})
-	}()
-	wg.Wait()
-	c06Wait(p.s)
-
-	return fmt.Sprintf("err=%v%s decoded=%q written=%x", err != nil, panicked, p.h.seen[before:], conn.written.Bytes())
+	return fmt.Sprintf("decoded=%q written=%x", p.h.seen[before:], conn.written.Bytes())
 }
 
 // c06TCPShort declares a longer frame than it carries.
@@ -334,23 +329,9 @@ func (p *c06TCPShort) feed(msg []byte) string {
 	binary.BigEndian.PutUint16(framed, uint16(len(msg)+20))
 	copy(framed[2:], msg)
 	conn := &c06Conn{r: bytes.NewReader(framed)}
-	wg := &sync.WaitGroup{}
-	// The connection loop of the server recovers from panics and closes the
-	// connection; so does this caller of its per-message step.
-	panicked := ""
-	err := func() (err error) {
-		defer func() {
-			if v := recover(); v != nil {
-				panicked = fmt.Sprintf(" panic=%v", v)
-			}
-		}()
+	c06ServeTCPConn(p.s, conn)
 
-		return p.s.acceptTCPMsg(conn, wg, &sync.Mutex{}, time.Second, syncutil.EmptySemaphore{})
-	}()
-	wg.Wait()
-	c06Wait(p.s)
-
-	return fmt.Sprintf("err=%v%s decoded=%q written=%x", err != nil, panicked, p.h.seen[before:], conn.written.Bytes())
+	return fmt.Sprintf("decoded=%q written=%x", p.h.seen[before:], conn.written.Bytes())
 }
 
 type c06DoQ struct {
@@ -524,12 +505,9 @@ func TestVerifC06Server(t *testing.T) {
 			// The frame announces `announced` octets and carries 3.
 			framed := []byte{byte(announced >> 8), byte(announced), 0xab, 0xcd, 0x01}
 			conn := &c06Conn{r: bytes.NewReader(framed)}
-			wg := &sync.WaitGroup{}
-			err := s.acceptTCPMsg(conn, wg, &sync.Mutex{}, time.Second, syncutil.EmptySemaphore{})
-			wg.Wait()
-			c06Wait(s)
+			c06ServeTCPConn(s, conn)
 
-			return fmt.Sprintf("err=%v", err != nil)
+			return fmt.Sprintf("written=%x", conn.written.Bytes())
 		}
 	}
 	maxMixed := vrt.Pick(r, 2, 3)
